@@ -16,8 +16,13 @@
 //!     is classified;
 //!   - categories absent, propagate-anchors off (ufo2ft's rule when no class is defined anywhere):
 //!     the source classifies nothing, a glyph is a mark iff it carries an underscore anchor whose
-//!     group some other anchor uses; a glyph that only carries underscore anchors nobody can
-//!     attach to is ambiguous and excluded (counted);
+//!     group some attaching anchor uses; an underscore anchor nobody can attach to (`_cedilla` while
+//!     no glyph has `cedilla`) is inert, so a glyph whose underscore anchors are all of that kind is
+//!     a base / ligature by its attaching anchors, and ambiguous and excluded (counted) if it has none;
+//!   - the same design written as a Glyphs 3 source (second route, keys `glyphs3/..`): a Glyphs
+//!     source always classifies: the written category (explicit mode) or the glyph data (by name /
+//!     code point), turned into a class by the glyphsLib rule (Mark/Nonspacing -> mark; subCategory
+//!     Ligature with an attaching anchor -> ligature; any other glyph with an attaching anchor -> base);
 //! * expected attachments: for every attaching glyph G (base / ligature / mark) with anchor N
 //!   (ligature: N_1, N_2 -> component 0, 1) and every mark M with anchor _N one entry
 //!   (kind of G, G, component, M) with base anchor = ot_round(G.N at the master) and mark anchor =
@@ -32,7 +37,8 @@
 //! At a master location L the font's value is `rounded master value + sum_r s_r(L) e_r` with e_r
 //! the rounding error of delta r (|e_r| <= 0.5, 0 for an integral delta). With one axis every
 //! master location has region scalars in {0, 1} and all deltas are differences of integers, so the
-//! comparison is EXACT; this is not assumed but measured per font from the GDEF store
+//! comparison is EXACT; the same holds for the two-axis layouts (masters at the default, at one end of
+//! one axis, at the corner: every support there is 0 or 1); this is not assumed but measured per font from the GDEF store
 //! (`VFont::gdef_store().region_scalars`): if a scalar outside {0,1} is met the allowance becomes
 //! 0.5 * sum of the scalars + 1e-6.
 
@@ -77,14 +83,33 @@ enum Layout {
     ThreeMid,
     /// wght 400 .. 550 (default) .. 700, masters at 400, 550, 700
     ThreeEnds,
+    /// two axes declared `wght` then `wdth` (NOT the alphabetical order of the tags), wght 400 (default)
+    /// .. 700, wdth 100 (default) .. 150; masters: default, wght 700, wdth 150
+    LWgWd,
+    /// the same three masters, axes declared `wdth` then `wght` (alphabetical)
+    LWdWg,
+    /// axes declared `wght`, `wdth`; four corner masters: default, wght 700, wdth 150, both
+    CWgWd,
+    /// four corner masters, axes declared `wdth`, `wght`
+    CWdWg,
 }
+
 
 impl Layout {
     fn masters(self) -> usize {
         match self {
             Layout::One => 1,
             Layout::Two => 2,
+            Layout::CWgWd | Layout::CWdWg => 4,
             _ => 3,
+        }
+    }
+    /// two-axis layouts: is `wght` declared first?
+    fn wght_first(self) -> Option<bool> {
+        match self {
+            Layout::LWgWd | Layout::CWgWd => Some(true),
+            Layout::LWdWg | Layout::CWdWg => Some(false),
+            _ => None,
         }
     }
     fn name(self) -> &'static str {
@@ -93,6 +118,10 @@ impl Layout {
             Layout::Two => "2",
             Layout::ThreeMid => "3mid",
             Layout::ThreeEnds => "3ends",
+            Layout::LWgWd => "2ax-3-wght,wdth",
+            Layout::LWdWg => "2ax-3-wdth,wght",
+            Layout::CWgWd => "2ax-4-wght,wdth",
+            Layout::CWdWg => "2ax-4-wdth,wght",
         }
     }
 }
@@ -175,6 +204,11 @@ fn source_pos(gname: &str, aname: &str, c: usize) -> (f64, f64) {
     let (mut px, mut py) = if fam == "bottom" { (x, 690.0 - y) } else { (x, y) };
     px += 300.0 * (idx - 1.0) + 7.0 * gi;
     py += 11.0 * gi;
+    if fam != "top" && fam != "bottom" {
+        // any further family (cedilla) sits apart from the two main ones
+        px += 37.0;
+        py -= 23.0;
+    }
     if under {
         // a mark's attaching point sits near its own origin
         px -= 213.0;
@@ -202,6 +236,18 @@ fn build_design(s: &Spec) -> Design {
             vec![Axis::new("wght", "Weight", 400.0, 550.0, 700.0)],
             vec![vec![400.0], vec![550.0], vec![700.0]],
         ),
+        Layout::LWgWd | Layout::LWdWg | Layout::CWgWd | Layout::CWdWg => {
+            // master m: (wght, wdth) = default, wght max, wdth max, both max; written in declared axis order
+            let wght_first = s.layout.wght_first() == Some(true);
+            let wght = Axis::new("wght", "Weight", 400.0, 400.0, 700.0);
+            let wdth = Axis::new("wdth", "Width", 100.0, 100.0, 150.0);
+            let locs = [(400.0, 100.0), (700.0, 100.0), (400.0, 150.0), (700.0, 150.0)];
+            Design::skeleton(
+                "C10",
+                if wght_first { vec![wght, wdth] } else { vec![wdth, wght] },
+                locs[..n].iter().map(|(g, d)| if wght_first { vec![*g, *d] } else { vec![*d, *g] }).collect(),
+            )
+        }
     };
     for g in &s.glyphs {
         let (_, cp, cat) = GLYPHS[gindex(&g.name).min(GLYPHS.len() - 1)];
@@ -335,7 +381,7 @@ fn spaces(tier: Tier) -> Vec<Space> {
     {
         let marks = marks.clone();
         let modes: Vec<(bool, bool)> = tier.pick(MODES3.to_vec(), MODES4.to_vec());
-        let layouts = tier.pick(vec![Layout::Two], vec![Layout::Two, Layout::ThreeMid]);
+        let layouts = tier.pick(vec![Layout::Two], vec![Layout::Two, Layout::ThreeMid, Layout::LWgWd]);
         let (nmodes, nl) = (modes.len(), layouts.len());
         v.push(Space {
             name: "mark-x-mark",
@@ -369,16 +415,23 @@ fn spaces(tier: Tier) -> Vec<Space> {
     {
         let mut pairs: Vec<((&'static str, &'static str), (&'static str, &'static str))> =
             vec![(("a", "top"), ("acutecomb", "_top"))];
-        let mut layouts = vec![Layout::One, Layout::Two, Layout::ThreeMid];
+        // two axes, both declaration orders: 3 masters (3^6 assignments) in both tiers, 4 corner masters (3^8) thorough
+        let mut layouts = vec![Layout::One, Layout::Two, Layout::ThreeMid, Layout::LWgWd, Layout::LWdWg];
         if tier == Tier::Thorough {
             pairs.push((("f_i", "top_2"), ("acutecomb", "top")));
             pairs.push((("a", "bottom"), ("gravecomb", "_bottom")));
             layouts.push(Layout::ThreeEnds);
+            layouts.push(Layout::CWgWd);
+            layouts.push(Layout::CWdWg);
         }
         for layout in layouts {
-            for pair in &pairs {
+            for (pi, pair) in pairs.iter().enumerate() {
                 let n = layout.masters();
                 let pair = *pair;
+                if n == 4 && pi > 0 {
+                    // the 3^8 assignments of the four-corner layouts: first pair only
+                    continue;
+                }
                 v.push(Space {
                     name: "coordinates",
                     what: format!(
@@ -413,7 +466,10 @@ fn spaces(tier: Tier) -> Vec<Space> {
 
     // S4: composite / propagation
     {
-        let layouts = tier.pick(vec![Layout::Two], vec![Layout::One, Layout::Two, Layout::ThreeMid, Layout::ThreeEnds]);
+        let layouts = tier.pick(
+            vec![Layout::Two, Layout::LWgWd],
+            vec![Layout::One, Layout::Two, Layout::ThreeMid, Layout::ThreeEnds, Layout::LWgWd, Layout::LWdWg, Layout::CWgWd, Layout::CWdWg],
+        );
         let nl = layouts.len();
         let acute: Vec<Vec<&'static str>> = vec![vec!["_top"], vec!["_top", "top"], vec!["_top", "top", "bottom"], vec!["_bottom", "bottom"]];
         let na = acute.len();
@@ -445,11 +501,11 @@ fn spaces(tier: Tier) -> Vec<Space> {
 
     // S5: master layouts x modes on a representative structure, with non-exported glyphs
     {
-        let layouts = [Layout::One, Layout::Two, Layout::ThreeMid, Layout::ThreeEnds];
+        let layouts = [Layout::One, Layout::Two, Layout::ThreeMid, Layout::ThreeEnds, Layout::LWgWd, Layout::LWdWg, Layout::CWgWd, Layout::CWdWg];
         v.push(Space {
             name: "layouts-export",
-            what: "4 layouts x 4 modes x {all exported; b / gravecomb / x[_top,top] not exported} x acutecomb in {[_top],[_top,top],[_top,_bottom,top]}; a[top,bottom] b[top] f_i[top_1,top_2] gravecomb[_top,top]".into(),
-            radices: vec![4, 4, 4, 3],
+            what: "8 layouts (1 master; 1 axis: 2, 3 with an intermediate, 3 with the default in the middle; 2 axes declared wght,wdth / wdth,wght: default + one master per axis, 4 corners) x 4 modes x {all exported; b / gravecomb / x[_top,top] not exported} x acutecomb in {[_top],[_top,top],[_top,_bottom,top]}; a[top,bottom] b[top] f_i[top_1,top_2] gravecomb[_top,top]".into(),
+            radices: vec![8, 4, 4, 3],
             build: Box::new(move |d| {
                 let layout = layouts[d[0]];
                 let n = layout.masters();
@@ -478,11 +534,11 @@ fn spaces(tier: Tier) -> Vec<Space> {
     }
     // S6: explicit categories that disagree with what names / code points / anchors suggest
     {
-        let layouts = [Layout::One, Layout::Two, Layout::ThreeMid, Layout::ThreeEnds];
+        let layouts = [Layout::One, Layout::Two, Layout::ThreeMid, Layout::ThreeEnds, Layout::LWgWd, Layout::CWdWg];
         v.push(Space {
             name: "categories-override",
-            what: "explicit categories only: 4 layouts x propagate off/on x {b left out of the categories; gravecomb left out; letter x[_top,top] categorised mark; acutecomb categorised base} x acutecomb in {[_top],[_top,top],[_top,_bottom,top]}; a[top,bottom] b[top] f_i[top_1,top_2] gravecomb[_top,top]".into(),
-            radices: vec![4, 2, 4, 3],
+            what: "explicit categories only: 6 layouts (1, 2, 3mid, 3ends, 2 axes wght,wdth 3 masters, 2 axes wdth,wght 4 masters) x propagate off/on x {b left out of the categories; gravecomb left out; letter x[_top,top] categorised mark; acutecomb categorised base} x acutecomb in {[_top],[_top,top],[_top,_bottom,top]}; a[top,bottom] b[top] f_i[top_1,top_2] gravecomb[_top,top]".into(),
+            radices: vec![6, 2, 4, 3],
             build: Box::new(move |d| {
                 let layout = layouts[d[0]];
                 let n = layout.masters();
@@ -505,6 +561,44 @@ fn spaces(tier: Tier) -> Vec<Space> {
                     _ => glyphs[3].cat_override = Some("base".into()),
                 }
                 Spec { space: "categories-override".into(), layout, explicit: true, propagate: d[1] == 1, glyphs }
+            }),
+        });
+    }
+    // S7: an anchor whose group has no counterpart anywhere in the font (a stale `_cedilla` nobody can
+    // attach to / a `cedilla` no mark uses), on every kind of glyph, next to used anchors
+    {
+        let hosts = ["a", "b", "f_i", "acutecomb", "gravecomb", "x"];
+        let names = ["_cedilla", "cedilla"];
+        let marks = marks.clone();
+        let layouts = tier.pick(vec![Layout::Two], vec![Layout::Two, Layout::ThreeMid, Layout::LWgWd]);
+        let lig_sets: Vec<&'static [&'static str]> = tier.pick(vec![LIG_SETS[3]], LIG_SETS.to_vec());
+        let (nl, nlig) = (layouts.len(), lig_sets.len());
+        v.push(Space {
+            name: "dangling-anchor",
+            what: format!(
+                "one extra anchor of a group without counterpart (_cedilla: nobody has cedilla; cedilla: nobody has _cedilla) on each of {hosts:?} (x = letter with [top], present only as host) x a: 4 subsets of top,bottom x f_i: {nlig} sets x acutecomb: {nm} subsets x b[top] gravecomb[_top,top] x 4 modes x layouts {:?}",
+                layouts.iter().map(|l| l.name()).collect::<Vec<_>>()
+            ),
+            radices: vec![hosts.len(), names.len(), 4, nlig, nm, 4, nl],
+            build: Box::new(move |d| {
+                let layout = layouts[d[6]];
+                let n = layout.masters();
+                let (explicit, propagate) = MODES4[d[5]];
+                let mut glyphs = vec![
+                    gspec("a", BASE_SETS[d[2]], n),
+                    gspec("b", &["top"], n),
+                    gspec("f_i", lig_sets[d[3]], n),
+                    gspec("acutecomb", &marks[d[4]], n),
+                    gspec("gravecomb", &["_top", "top"], n),
+                ];
+                let host = hosts[d[0]];
+                if host == "x" {
+                    glyphs.push(gspec("x", &["top"], n));
+                }
+                let g = glyphs.iter_mut().find(|g| g.name == host).unwrap();
+                let ai = g.anchors.len();
+                g.anchors.push(ASpec { name: names[d[1]].to_string(), c: default_choice(host, ai, n) });
+                Spec { space: "dangling-anchor".into(), layout, explicit, propagate, glyphs }
             }),
         });
     }
@@ -589,6 +683,16 @@ enum Mode {
     Explicit,
     GlyphData,
     ByAnchors,
+    /// a Glyphs source: every glyph has a category (written, or taken from the glyph data by name /
+    /// code point); the glyphsLib rule turns it into a class
+    Glyphs,
+}
+
+/// which source format the design is written in
+#[derive(Clone, Copy, Debug, PartialEq, Eq)]
+enum Route {
+    Ufo,
+    Glyphs3,
 }
 
 type Pos = (f64, f64);
@@ -678,9 +782,11 @@ impl Model {
         all
     }
 
-    fn new(d: &Design, propagate: bool) -> Model {
+    fn new(d: &Design, propagate: bool, route: Route) -> Model {
         let explicit = !d.categories.is_empty();
-        let mode = if explicit {
+        let mode = if route == Route::Glyphs3 {
+            Mode::Glyphs
+        } else if explicit {
             Mode::Explicit
         } else if propagate {
             Mode::GlyphData
@@ -690,7 +796,13 @@ impl Model {
         let masters = d.masters.len();
         let mut unsupported = None;
         let prelim_mark = |g: &Glyph| -> bool {
-            if explicit { d.categories.get(&g.name).map(|c| c == "mark").unwrap_or(false) } else { unicode_is_combining_mark(g) }
+            match (mode, d.categories.get(&g.name)) {
+                // Glyphs: the written category, else the glyph data
+                (Mode::Glyphs, Some(c)) => c == "mark",
+                (Mode::Glyphs, None) => unicode_is_combining_mark(g),
+                _ if explicit => d.categories.get(&g.name).map(|c| c == "mark").unwrap_or(false),
+                _ => unicode_is_combining_mark(g),
+            }
         };
         let mut eff = BTreeMap::new();
         for g in d.glyphs.iter().filter(|g| g.export) {
@@ -740,11 +852,30 @@ impl Model {
                         has_attaching.then_some(Cls::Base)
                     }
                 }
+                Mode::Glyphs => {
+                    // category = Mark (Nonspacing) -> mark; subCategory Ligature -> ligature if it has an
+                    // attaching anchor; anything else with an attaching anchor -> base. A written category
+                    // `Letter` leaves the subCategory to the glyph data (U+FB0x: Ligature).
+                    let (mark, lig) = match d.categories.get(&g.name).map(|s| s.as_str()) {
+                        Some("mark") => (true, false),
+                        Some("ligature") => (false, true),
+                        Some(_) => (false, unicode_is_ligature(g)),
+                        None => (unicode_is_combining_mark(g), unicode_is_ligature(g)),
+                    };
+                    if mark {
+                        Some(Cls::Mark)
+                    } else if lig {
+                        has_attaching.then_some(Cls::Lig)
+                    } else {
+                        has_attaching.then_some(Cls::Base)
+                    }
+                }
                 Mode::ByAnchors => {
                     let us: Vec<&str> = anchors.iter().filter_map(|a| a.0.strip_prefix('_')).collect();
                     if us.iter().any(|g| base_groups.contains(*g)) {
                         Some(Cls::Mark)
-                    } else if !us.is_empty() {
+                    } else if !us.is_empty() && !has_attaching {
+                        // only underscore anchors nobody can attach to: no role the rule could fix
                         ambiguous.insert(g.name.clone());
                         None
                     } else if anchors.iter().any(|a| split_attaching(&a.0).1.is_some()) {
@@ -852,6 +983,25 @@ struct Stats {
     fonts_explicit_categories: u64,
     fonts_inferred_glyphdata: u64,
     fonts_inferred_by_anchors: u64,
+    fonts_glyphs_categories: u64,
+    /// two axes; counted by the order of the tags in the compiled font's fvar
+    fonts_two_axis_fvar_order_alphabetical: u64,
+    fonts_two_axis_fvar_order_not_alphabetical: u64,
+    /// ... of those with an expected anchor whose delta along the first axis differs from the one along the second
+    fonts_two_axis_anchor_varies_differently_per_axis: u64,
+    fonts_two_axis_with_corner_master: u64,
+    master_locations_two_axis_alphabetical: u64,
+    master_locations_two_axis_not_alphabetical: u64,
+    attachments_compared_two_axis_alphabetical: u64,
+    attachments_compared_two_axis_not_alphabetical: u64,
+    /// an underscore anchor whose group has no attaching anchor on any exported glyph
+    fonts_with_dangling_underscore_anchor: u64,
+    /// ... on a glyph the reference takes as base / ligature and that takes part in an expected attachment
+    fonts_with_dangling_underscore_on_attaching_base: u64,
+    /// ... the same with no categories in the source and propagate-anchors off (the compiler has to tell marks from bases by their anchors)
+    fonts_with_dangling_underscore_on_attaching_base_by_anchors: u64,
+    /// an attaching anchor whose group no underscore anchor of an exported glyph uses
+    fonts_with_dangling_attaching_anchor: u64,
     fonts_with_propagated_composite: u64,
     fonts_with_composite_own_anchor: u64,
     fonts_with_non_exported_glyph: u64,
@@ -891,6 +1041,13 @@ struct Eval {
     machinery: Vec<String>,
     stats: Stats,
     summary: String,
+}
+
+/// is the Glyphs 3 twin of this case compiled too? (thorough: not for the largest space, whose
+/// structures the quick tier's twin already covers at two masters, and not for the 3^8 coordinate
+/// assignments of the four-corner layouts)
+fn glyphs_twin(tier: Tier, spec: &Spec) -> bool {
+    tier == Tier::Quick || !(spec.space == "attaching-x-mark" || (spec.space == "coordinates" && spec.layout.masters() == 4))
 }
 
 fn slug(s: &str) -> String {
@@ -935,10 +1092,14 @@ fn compile(path: &std::path::Path, opts: &Opts, dir: &std::path::Path) -> Result
 }
 
 fn evaluate(d: &Design, propagate: bool) -> Eval {
+    evaluate_route(d, propagate, Route::Ufo)
+}
+
+fn evaluate_route(d: &Design, propagate: bool, route: Route) -> Eval {
     let mut ev = Eval { viol: vec![], machinery: vec![], stats: Stats::default(), summary: String::new() };
     let st = &mut ev.stats;
     st.fonts = 1;
-    let model = Model::new(d, propagate);
+    let model = Model::new(d, propagate, route);
     if let Some(u) = &model.unsupported {
         ev.machinery.push(format!("source outside the reference model: {u}"));
         return ev;
@@ -948,7 +1109,11 @@ fn evaluate(d: &Design, propagate: bool) -> Eval {
 
     // ---- compile
     let sc = vcore::Scratch::new("c10");
-    let path = match d.write_source(sc.path()) {
+    let written = match route {
+        Route::Ufo => d.write_source(sc.path()),
+        Route::Glyphs3 => d.write_glyphs3(sc.path()),
+    };
+    let path = match written {
         Ok(p) => p,
         Err(e) => {
             ev.machinery.push(format!("cannot write the source: {e}"));
@@ -1007,6 +1172,29 @@ fn evaluate(d: &Design, propagate: bool) -> Eval {
         Mode::Explicit => st.fonts_explicit_categories = 1,
         Mode::GlyphData => st.fonts_inferred_glyphdata = 1,
         Mode::ByAnchors => st.fonts_inferred_by_anchors = 1,
+        Mode::Glyphs => st.fonts_glyphs_categories = 1,
+    }
+    // anchors without counterpart
+    {
+        let mut under_groups = BTreeSet::new();
+        for per in model.eff.values() {
+            under_groups.extend(per[0].iter().filter_map(|a| a.0.strip_prefix('_').map(|s| s.to_string())));
+        }
+        for (g, per) in &model.eff {
+            let dangling_us = per[0].iter().any(|a| a.0.strip_prefix('_').is_some_and(|grp| !model.attaching_groups.contains(grp)));
+            if dangling_us {
+                st.fonts_with_dangling_underscore_anchor = 1;
+                if model.cls.get(g).is_some_and(|c| *c != Cls::Mark) && expected.iter().any(|e| e.g == *g) {
+                    st.fonts_with_dangling_underscore_on_attaching_base = 1;
+                    if model.mode == Mode::ByAnchors {
+                        st.fonts_with_dangling_underscore_on_attaching_base_by_anchors = 1;
+                    }
+                }
+            }
+            if per[0].iter().any(|a| !a.0.starts_with('_') && !under_groups.contains(&split_attaching(&a.0).0)) {
+                st.fonts_with_dangling_attaching_anchor = 1;
+            }
+        }
     }
     if n == 1 {
         st.fonts_static = 1;
@@ -1080,7 +1268,7 @@ fn evaluate(d: &Design, propagate: bool) -> Eval {
         let got = lf.glyph_class(gid[&g.name]);
         let want = model.cls.get(&g.name).copied();
         match model.mode {
-            Mode::Explicit | Mode::GlyphData => {
+            Mode::Explicit | Mode::GlyphData | Mode::Glyphs => {
                 st.gdef_glyphs_checked += 1;
                 let w = want.map(|c| c.gdef()).unwrap_or(0);
                 if want == Some(Cls::Mark) {
@@ -1090,7 +1278,11 @@ fn evaluate(d: &Design, propagate: bool) -> Eval {
                     st.gdef_unclassified_checked += 1;
                 }
                 if got != w {
-                    let mode = if model.mode == Mode::Explicit { "explicit" } else { "glyphdata" };
+                    let mode = match model.mode {
+                        Mode::Explicit => "explicit",
+                        Mode::Glyphs => "glyphs",
+                        _ => "glyphdata",
+                    };
                     ev.viol.push(Viol {
                         key: format!("gdef-class-wrong:{}:{got}:{mode}", want.map(|c| c.name()).unwrap_or("unclassified")),
                         what: format!("glyph {} is {} in the source ({mode} categories) but has GDEF class {got}", g.name, want.map(|c| c.name()).unwrap_or("unclassified")),
@@ -1119,11 +1311,44 @@ fn evaluate(d: &Design, propagate: bool) -> Eval {
 
     // ---- per master location
     let axes = vf.axes();
+    // two axes: is the font's fvar order the alphabetical order of the tags? (measured on the compiled font)
+    let two_axis_alpha: Option<bool> = (axes.len() == 2).then(|| axes[0].tag.as_bytes() < axes[1].tag.as_bytes());
+    match two_axis_alpha {
+        Some(true) => st.fonts_two_axis_fvar_order_alphabetical = 1,
+        Some(false) => st.fonts_two_axis_fvar_order_not_alphabetical = 1,
+        None => {}
+    }
+    if two_axis_alpha.is_some() {
+        let norms: Vec<Vec<f64>> = (0..n).map(|m| d.master_norm(m)).collect();
+        if norms.iter().any(|l| l.iter().filter(|v| **v != 0.0).count() == 2) {
+            st.fonts_two_axis_with_corner_master = 1;
+        }
+        // masters that move along exactly one axis, per axis
+        let along = |ax: usize| norms.iter().position(|l| l[ax] != 0.0 && l[1 - ax] == 0.0);
+        if let (Some(m0), Some(m1)) = (along(0), along(1)) {
+            let dm = d.default_master;
+            let differs = expected.iter().any(|e| {
+                [&e.base, &e.mark].iter().any(|s| {
+                    let d0 = (ot_round(s[m0].0) - ot_round(s[dm].0), ot_round(s[m0].1) - ot_round(s[dm].1));
+                    let d1 = (ot_round(s[m1].0) - ot_round(s[dm].0), ot_round(s[m1].1) - ot_round(s[dm].1));
+                    d0 != d1
+                })
+            });
+            if differs {
+                st.fonts_two_axis_anchor_varies_differently_per_axis = 1;
+            }
+        }
+    }
     let mut any_attachment = false;
     let mut all_scalars_01 = true;
     let mut summary_bits: Vec<String> = vec![];
     for m in 0..n {
         st.master_locations += 1;
+        match two_axis_alpha {
+            Some(true) => st.master_locations_two_axis_alphabetical += 1,
+            Some(false) => st.master_locations_two_axis_not_alphabetical += 1,
+            None => {}
+        }
         let user: Vec<(String, f64)> = d.axes.iter().zip(d.master_user(m)).map(|(a, u)| (a.tag.clone(), u)).collect();
         let coords: Vec<f64> = if axes.is_empty() { vec![] } else { vf.normalize(&user) };
         if !d.axes.is_empty() && axes.is_empty() {
@@ -1255,6 +1480,11 @@ fn evaluate(d: &Design, propagate: bool) -> Eval {
                     .max((a.mark_anchor.1 - wm.1).abs());
             }
             st.attachments_compared += 1;
+            match two_axis_alpha {
+                Some(true) => st.attachments_compared_two_axis_alphabetical += 1,
+                Some(false) => st.attachments_compared_two_axis_not_alphabetical += 1,
+                None => {}
+            }
             // reachable from the right feature under both language systems
             for (ri, (mark, mkmk)) in reach.iter().enumerate() {
                 let set = if e.kind == Cls::Mark { mkmk } else { mark };
@@ -1434,7 +1664,11 @@ fn replay(path: &std::path::Path) -> ! {
     if let Ok(spec) = serde_json::from_value::<Spec>(r["spec"].clone()) {
         println!("source: {}", spec.label());
     }
-    let ev = evaluate(&d, propagate);
+    let route = if r["route"].as_str() == Some("glyphs3") { Route::Glyphs3 } else { Route::Ufo };
+    if route == Route::Glyphs3 {
+        println!("route: the design written as a Glyphs 3 source");
+    }
+    let ev = evaluate_route(&d, propagate, route);
     for m in &ev.machinery {
         println!("machinery: {m}");
     }
@@ -1515,6 +1749,7 @@ fn main() {
     let skipped = std::sync::atomic::AtomicUsize::new(0);
     let results = vcore::par_for(nchunks, vcore::ncores(), |ci| {
         let mut st = Stats::default();
+        let mut gst = Stats::default();
         let mut viol: Vec<(String, String, Value)> = vec![];
         let mut machinery: Vec<String> = vec![];
         let mut samples: Vec<Value> = vec![];
@@ -1522,7 +1757,7 @@ fn main() {
         let mut seen = BTreeSet::new();
         if start.elapsed().as_secs_f64() > budget_s {
             skipped.fetch_add(((ci + 1) * chunk).min(total_cases) - ci * chunk, std::sync::atomic::Ordering::Relaxed);
-            return (st, viol, machinery, samples, per_space);
+            return (st, gst, viol, machinery, samples, per_space);
         }
         for idx in ci * chunk..((ci + 1) * chunk).min(total_cases) {
             let (si, k) = locate(idx);
@@ -1544,16 +1779,40 @@ fn main() {
                     ));
                 }
             }
+            // the same design written as a Glyphs 3 source (reported separately, keys `glyphs3/..`)
+            if glyphs_twin(args.tier, &spec) && d.glyphs_unrepresentable().is_empty() {
+                let ev = evaluate_route(&d, spec.propagate, Route::Glyphs3);
+                add_stats(&mut gst, &ev.stats);
+                machinery.extend(ev.machinery.into_iter().map(|m| format!("glyphs3 route: {m} [source {}]", spec.label())));
+                for x in ev.viol {
+                    let key = format!("glyphs3/{}", x.key);
+                    if seen.insert(key.clone()) {
+                        viol.push((
+                            key,
+                            format!("(design written as a Glyphs 3 source) {} [source {}]", x.what, spec.label()),
+                            json!({"design": serde_json::to_value(&d).unwrap_or(Value::Null), "spec": spec, "propagate_anchors": spec.propagate, "route": "glyphs3", "details": x.details}),
+                        ));
+                    }
+                }
+            }
         }
-        (st, viol, machinery, samples, per_space)
+        (st, gst, viol, machinery, samples, per_space)
     });
     let mut totals = Stats::default();
+    let mut gtotals = Stats::default();
     let mut samples: Vec<Value> = vec![];
     let mut machinery: Vec<String> = vec![];
     let mut per_space: BTreeMap<String, u64> = BTreeMap::new();
-    for (st, viol, mach, s, ps) in results {
+    for (st, gst, viol, mach, s, ps) in results {
         add_stats(&mut totals, &st);
+        add_stats(&mut gtotals, &gst);
         for (k, w, r) in viol {
+            // a known defect of the shared back end that shows through the Glyphs route as well is the same
+            // finding (same key); anything else seen on the Glyphs route keeps its own `glyphs3/` key
+            let k = match k.strip_prefix("glyphs3/") {
+                Some(base) if rep.is_known(base) => base.to_string(),
+                _ => k,
+            };
             rep.violation(&k, &w, r);
         }
         machinery.extend(mach);
@@ -1580,6 +1839,14 @@ fn main() {
         "distinct enumerated sources (every case of the stated products is a different source by construction) whose compiled font offers at least one mark attachment anchor pair AND for which at least one expected (attaching glyph, component, mark) entry was found and compared coordinate by coordinate at a master location",
     );
     rep.set("counts", serde_json::to_value(&totals).unwrap());
+    rep.set("glyphs3_route_counts", serde_json::to_value(&gtotals).unwrap());
+    rep.set(
+        "glyphs3_route",
+        args.tier.pick(
+            "every enumerated design is also written as a Glyphs 3 source and judged with the same oracle (classification = written category, else glyph data; glyphsLib rule)",
+            "every enumerated design of every space except attaching-x-mark and the four-corner coordinate assignments is also written as a Glyphs 3 source and judged with the same oracle (classification = written category, else glyph data; glyphsLib rule)",
+        ),
+    );
     rep.set("cases_per_space", serde_json::to_value(&per_space).unwrap());
     rep.set(
         "spaces",
@@ -1590,8 +1857,8 @@ fn main() {
     if limit.is_some() || skipped > 0 {
         rep.set("cap", format!("{} of {total} cases evaluated (C10_LIMIT / time budget {budget_s}s); {skipped} skipped by the budget", total_cases - skipped));
     }
-    rep.assume("sources: UFO (static) or designspace + UFOs, at most one axis (wght), 1-3 full masters, every glyph and every anchor present in every master, no features.fea, no kerning; Latin letters, U+FB01 and U+0300/U+0301 only");
-    rep.assume("explicit categories: public.openTypeCategories is the classification. Absent + propagate-anchors on: reference = Unicode (U+0300..036F nonspacing marks are marks, U+FB0x with an attaching anchor is a ligature, any other glyph with an attaching anchor a base). Absent + propagate-anchors off: the source classifies nothing; a glyph is taken as a mark iff it has an underscore anchor whose group also has an attaching anchor (ufo2ft's rule); glyphs with only unusable underscore anchors are excluded and counted (ambiguous_glyphs_excluded); no GDEF class is asserted in that mode");
+    rep.assume("sources: UFO (static) or designspace + UFOs (and the same design as a Glyphs 3 file), no axis, one axis (wght) or two axes (wght and wdth, declared in either order), 1-4 full masters (two axes: default + one master per axis, or the 4 corners), every glyph and every anchor present in every master, no features.fea, no kerning; Latin letters, U+FB01 and U+0300/U+0301 only");
+    rep.assume("explicit categories: public.openTypeCategories is the classification. Absent + propagate-anchors on: reference = Unicode (U+0300..036F nonspacing marks are marks, U+FB0x with an attaching anchor is a ligature, any other glyph with an attaching anchor a base). Absent + propagate-anchors off: the source classifies nothing; a glyph is taken as a mark iff it has an underscore anchor whose group also has an attaching anchor (ufo2ft's rule); an underscore anchor whose group no glyph attaches to cannot make a glyph a mark: such a glyph is a base / ligature if it has attaching anchors, and is excluded and counted (ambiguous_glyphs_excluded) if it has none; no GDEF class is asserted in that mode except for marks that take part in an expected attachment. Glyphs 3 route: the class follows the glyphsLib rule from the written category (mark -> Mark/Nonspacing, ligature -> Letter/Ligature, base -> Letter) or, where none is written, from the glyph data (same Unicode rule as above)");
     rep.assume("an attaching anchor of a glyph classified mark counts for mkmk whether or not that glyph also has an underscore anchor (the statement says 'every base, ligature or mark glyph anchor')");
     rep.assume("duplicates are fine: the statement asks for SOME lookup reachable from mark (base, ligature) / mkmk (mark); further lookups (abvm/blwm copies) offering the same pair are only required to carry the same anchors (soundness)");
     rep.assume("propagate-anchors: only translated components, composite = plain base + mark; expected anchors follow the glyphsLib rule stated in the module documentation; own anchors of a composite replace propagated ones of the same name");
